@@ -77,6 +77,31 @@ func c10OutScript(kind string) []byte {
 		return []byte{0x00}
 	case "nonstd-K1":
 		return append(append([]byte{0x75}, push(c10K1)...), 0x51)
+	case "multisig-1of1-K1":
+		return append(append([]byte{0x51}, push(c10K1)...), 0x51, 0xae)
+	case "multisig-2of3-K2K2K1":
+		s := []byte{0x52}
+		s = append(s, push(c10K2)...)
+		s = append(s, push(c10K2)...)
+		s = append(s, push(c10K1)...)
+		return append(s, 0x53, 0xae)
+	case "multisig-15-K1", "multisig-16-K1", "multisig-16-K1last", "multisig-17-K1":
+		n := map[string]int{"multisig-15-K1": 15, "multisig-16-K1": 16, "multisig-16-K1last": 16, "multisig-17-K1": 17}[kind]
+		s := []byte{0x51}
+		for i := 0; i < n; i++ {
+			k := c10K2
+			if i == 0 && kind != "multisig-16-K1last" || i == n-1 && kind == "multisig-16-K1last" {
+				k = c10K1
+			}
+			s = append(s, push(k)...)
+		}
+		cnt := byte(0x50 + n)
+		if n == 17 {
+			cnt = 0x60 // 17 keys but OP_16: the key count does not agree, not a multisig
+		}
+		return append(s, cnt, 0xae)
+	case "p2pk-65-then-K1": // an uncompressed-size key push followed by OP_CHECKSIG is pay-to-pubkey; K1 is pushed and dropped in front
+		return append(append(append(push(c10K1), 0x75), push(append([]byte{0x04}, bytes.Repeat([]byte{0x66}, 64)...))...), 0xac)
 	case "p2pkh-U":
 		return append(append([]byte{0x76, 0xa9}, push(bytes.Repeat([]byte{0x55}, 20))...), 0x88, 0xac)
 	}
@@ -561,6 +586,38 @@ func runC10(c *mc.Ctx) {
 		c.ParFor(int64(len(wide)), func(w *mc.W, i int64) {
 			w.State()
 			c10EvalTx(w, wide[i])
+		})
+	}
+	// further script shapes around the "pay-to-pubkey or multisig" classification that decides the
+	// update under BloomUpdateP2PubkeyOnly: 1-of-1, 2-of-3 with the watched key last, 15 / 16 keys
+	// (OP_15 / OP_16 key counts), 17 keys under OP_16 (not a multisig)
+	{
+		extra := []string{"multisig-1of1-K1", "multisig-2of3-K2K2K1", "multisig-15-K1", "multisig-16-K1", "multisig-16-K1last", "multisig-17-K1", "p2pk-65-then-K1"}
+		var xs []c10Tx
+		for _, a := range extra {
+			for _, second := range []string{"", "p2pkh-H2", "p2pk-K1", "multisig-16-K1"} {
+				outs := []string{a}
+				if second != "" {
+					outs = []string{a, second}
+				}
+				for _, content := range []string{"none", "K1", "txid", "K1+E1"} {
+					for _, ins := range [][]string{{"spend-E0"}, {"spend-E1"}, {"sig-K1"}} {
+						for fl := 0; fl < 4; fl++ {
+							for _, g := range []string{"mid", "two"} {
+								xs = append(xs, c10Tx{Content: content, Outs: outs, Ins: ins, Flags: fl, Geom: g})
+								if second != "" {
+									xs = append(xs, c10Tx{Content: content, Outs: []string{second, a}, Ins: ins, Flags: fl, Geom: g})
+								}
+							}
+						}
+					}
+				}
+			}
+		}
+		c.Space("single transactions with multisig outputs of 1, 3, 15, 16, 17 keys", int64(len(xs)))
+		c.ParFor(int64(len(xs)), func(w *mc.W, i int64) {
+			w.State()
+			c10EvalTx(w, xs[i])
 		})
 	}
 	c.Sample("tx", c10Tx{Content: "K1", Outs: []string{"p2pk-K1"}, Ins: []string{"spend-E0"}, Flags: 2, Geom: "mid"})
